@@ -26,7 +26,7 @@ def shards(tier, seed):
     for t in TRANSPORTS:
         out.append({"id": "status-" + t, "kind": "status", "transport": t})
         out.append({"id": "sense-" + t, "kind": "sense", "transport": t, "n": 400 if tier == "quick" else 6000})
-        nseq = 700 if tier == "quick" else 17000
+        nseq = 700 if tier == "quick" else 40000
         for i in range(1 if tier == "quick" else 4):
             out.append({"id": "seq-%s-%d" % (t, i), "kind": "seq", "transport": t, "n": nseq})
         out.append({"id": "facade-" + t, "kind": "facade", "transport": t,
